@@ -46,7 +46,7 @@ class Scenario:
     no_defer: bool = False               # never offer recurring (defer_by) parameters
     script: list | None = None           # directed history: the operations in this order instead of seeded choices
     delay_kind: str | None = None        # "net" | "until" | "defer+net" | "defer": force the form of the delay parameters
-    slow_signals_ms: int = 0             # subscribers on the settling calls that only observe, but take this long
+    slow_signals_ms: object = 0             # subscribers on the settling calls that only observe, but take this long
     abs_delays: bool = False             # delays count from the start of the history, not from the enqueue: identical due instants
 
 
@@ -73,10 +73,16 @@ async def run_history(loop, sc: Scenario, make=None, projector=None, latency_us=
         class _Slow:
             pass
         slow = _Slow()
+        slow_n = [0]
         for name in ("before_reject", "before_ack", "before_nack", "before_requeue"):
             def mk(name=name):
                 async def sub():
-                    await asyncio.sleep(sc.slow_signals_ms / 1000)
+                    # (a list: the calls take these times in turn -- the first one may be the slowest)
+                    ms = sc.slow_signals_ms
+                    if isinstance(ms, (list, tuple)):
+                        slow_n[0] += 1
+                        ms = ms[(slow_n[0] - 1) % len(ms)]
+                    await asyncio.sleep(ms / 1000)
                 sub.__name__ = name
                 return sub
             setattr(slow, name, mk())
